@@ -3,7 +3,7 @@ CFG = dict(
     dirs=["Common", "C09"], gen=True,
     run_targets=["C09/Run.vo"], proof_targets=["C09/Props.vo"], props="C09/Props.v",
     gen_obligations=[
-        "Inst.gen_c09_spec: tx_insert locks the inserted row, tx_update/tx_delete lock all matching rows before the change loop and record undo before changing, rollback applies the log in reverse and always releases, every transactional call starts with the is_active check, apply_undo_entry adds B-tree entries only for columns that have a B-tree index, tx_insert/tx_delete capture the undo's index entries for the system column `_id` as well, the expired-lock sweep prunes only the swept key from its owner's key list",
+        "Inst.gen_c09_spec: tx_insert locks the inserted row, tx_update/tx_delete lock all matching rows before the change loop and record undo before changing, rollback applies the log in reverse and always releases, every transactional call starts with the is_active check, apply_undo_entry adds B-tree entries only for columns that have a B-tree index, tx_insert/tx_delete capture the undo's index entries for the system column `_id` as well, the expired-lock sweep prunes only the swept key from its owner's key list, the undo re-adds B-tree entries through a path that does not consult the entry budget",
     ],
     crate="nvh_c09", shard=60,
     header=H + "From NV.Common Require Import LockTable.\nFrom NV.C09 Require Import Model Run.\nOpen Scope N_scope.",
